@@ -1624,8 +1624,17 @@ where
             return;
         };
 
-        let props_types = self.extract_props_type(maybe_setup);
-        let emits_types = self.extract_emits_type(maybe_setup);
+        // options written by the user always win, so there is nothing to derive for them
+        let props_types = if has_define_component_option(call_expr, "props") {
+            None
+        } else {
+            self.extract_props_type(maybe_setup)
+        };
+        let emits_types = if has_define_component_option(call_expr, "emits") {
+            None
+        } else {
+            self.extract_emits_type(maybe_setup)
+        };
         if let Some(prop_types) = props_types {
             inject_define_component_option(call_expr, "props", prop_types);
         }
@@ -1686,31 +1695,69 @@ fn jsx_member_to_expr(JSXMemberExpr { span, obj, prop }: &JSXMemberExpr) -> Expr
     })
 }
 
+/// Does this member of an options object literal define the option `name`
+/// (`name: v`, `"name": v`, `["name"]: v`, shorthand, method or accessor)?
+fn prop_defines_option(prop: &PropOrSpread, name: &str) -> bool {
+    let PropOrSpread::Prop(prop) = prop else {
+        return false;
+    };
+    let key = match &**prop {
+        Prop::Shorthand(ident) => return ident.sym == name,
+        Prop::KeyValue(KeyValueProp { key, .. })
+        | Prop::Getter(GetterProp { key, .. })
+        | Prop::Setter(SetterProp { key, .. })
+        | Prop::Method(MethodProp { key, .. }) => key,
+        Prop::Assign(..) => return false,
+    };
+    match key {
+        PropName::Ident(ident) => ident.sym == name,
+        PropName::Str(str) => str.value == name,
+        PropName::Computed(ComputedPropName { expr, .. }) => {
+            matches!(&**expr, Expr::Lit(Lit::Str(str)) if str.value == name)
+        }
+        _ => false,
+    }
+}
+
+fn has_define_component_option(call: &CallExpr, name: &str) -> bool {
+    match call.args.get(1) {
+        Some(ExprOrSpread { spread: None, expr }) => match &**expr {
+            Expr::Object(object) => object
+                .props
+                .iter()
+                .any(|prop| prop_defines_option(prop, name)),
+            _ => false,
+        },
+        _ => false,
+    }
+}
+
 fn inject_define_component_option(call: &mut CallExpr, name: &'static str, value: Expr) {
-    let options = call.args.get_mut(1);
-    if options
-        .as_ref()
-        .and_then(|options| options.spread)
-        .is_some()
-    {
+    // `defineComponent(...args)`: the argument list is not known, leave it alone
+    if call.args.iter().take(2).any(|arg| arg.spread.is_some()) {
         return;
     }
 
-    match options.map(|options| &mut *options.expr) {
+    match call.args.get_mut(1).map(|options| &mut *options.expr) {
         Some(Expr::Object(object)) => {
-            if !object.props.iter().any(|prop| {
-                prop.as_prop()
-                    .and_then(|prop| prop.as_key_value())
-                    .and_then(|key_value| key_value.key.as_ident())
-                    .map(|ident| ident.sym == name)
-                    .unwrap_or_default()
-            }) {
-                object
+            if !object
+                .props
+                .iter()
+                .any(|prop| prop_defines_option(prop, name))
+            {
+                // a spread inside the literal may carry the user's own value: it must win
+                let index = object
                     .props
-                    .push(PropOrSpread::Prop(Box::new(Prop::KeyValue(KeyValueProp {
+                    .iter()
+                    .position(|prop| prop.is_spread())
+                    .unwrap_or(object.props.len());
+                object.props.insert(
+                    index,
+                    PropOrSpread::Prop(Box::new(Prop::KeyValue(KeyValueProp {
                         key: PropName::Ident(quote_ident!(name)),
                         value: Box::new(value),
-                    }))));
+                    }))),
+                );
             }
         }
         Some(..) => {
